@@ -17,6 +17,7 @@ type ReqRecord struct {
 	RankingDeep      string
 	Gens             []*GenRec
 	FuelExhausted    bool
+	Fuel             int64 // the step budget this request ran under
 	FuelSite         int
 	Inject           *Injection
 	injectedAt       string
